@@ -28,6 +28,7 @@ pub mod selftest;
 pub fn dispatch(ctx: &Ctx, rep: &mut Report) -> bool {
     match ctx.check.as_str() {
         "C01" => c01::run(ctx, rep),
+        "C01M" => c01::run_miri(ctx, rep),
         "C02" => c02::run(ctx, rep),
         "C03" => c03::run(ctx, rep),
         "C04" => c04::run(ctx, rep),
